@@ -695,7 +695,9 @@ class Executor:
             # identity is decided by the term for None / bool / enum members / types / references
             singleton = lambda t: z3.Or(V.is_None(t), V.is_Bool(t), V.is_Enum(t), V.is_Type(t), V.is_Ref(t))
             sa, sb = z3.simplify(singleton(ta)), z3.simplify(singleton(tb))
-            if z3.is_true(sa) or z3.is_true(sb):
+            if z3.is_true(sa) or z3.is_true(sb) or ta.get_id() == tb.get_id():
+                return ta == tb
+            if (isinstance(a.hint, tuple) and a.hint[0] in ("obj", "enum")) or (isinstance(b.hint, tuple) and b.hint[0] in ("obj", "enum")):
                 return ta == tb
             # scalars: identity is non-deterministic but implies equality of terms
             self.assumptions.add("identity (`is`) between int/float/str scalars is an uninterpreted relation implying equality")
@@ -965,6 +967,9 @@ class Executor:
             head = src.split("[")[0].split(".")[-1]
             if head in ("List", "Deque") and src.endswith("[str]"):
                 return s.alloc(SeqBox(z3.Const(name, V.SeqStr), "str", "deque" if head == "Deque" else "list"))
+            if head == "List" and isinstance(ann, ast.Subscript) and isinstance(ann.slice, ast.Name) \
+                    and self.P.find_class(ann.slice.id) is not None and not self.P.find_class(ann.slice.id).is_enum:
+                return s.alloc(SeqBox(z3.Const(name, V.SeqVal), "val", "list", ann.slice))
             if head in ("List", "Deque", "Tuple", "deque", "list") and not (head == "Tuple" and not src.endswith(", ...]")):
                 n = z3.Int(name + "_len")
                 s.assume(n >= 0)
@@ -1061,6 +1066,8 @@ class Executor:
                 ob = self.add_obl("K1", node, "index within the sequence", [T(False)])
                 ob.status, ob.solver = "unsat", "concrete"
                 return [(s, items[ci])]
+            if self.pure:
+                return [(s, Z(V.fresh("oob")))]      # inside a contract clause: guarded by the clause itself
             ob = self.add_obl("K1", node, "index within the sequence", list(s.pc), clause="IndexError")
             exc = Exc("IndexError", self.origin(node), "index %d out of range for length %d" % (ci, len(items)))
             ob.status = "pending"
@@ -1079,7 +1086,16 @@ class Executor:
                     out.append((s2, x))
                     continue
                 el = box.term[self.norm_index(i, n)]
-                out.append((s2, Z(V.VStr(el), "str") if box.elem == "str" else Z(el)))
+                if box.elem == "str":
+                    out.append((s2, Z(V.VStr(el), "str")))
+                else:
+                    z = Z(el)
+                    if box.elem_ann is not None:
+                        c, h = self.constraint_of_annotation(box.elem_ann, el)
+                        if c is not None:
+                            s2.assume(c)
+                        z.hint = h
+                    out.append((s2, z))
             return out
         if isinstance(base, Z) and isinstance(idx, Z):
             b = base.t
@@ -1101,7 +1117,37 @@ class Executor:
         raise Unsupported("subscript of %s" % type(base).__name__, node)
 
     def heap_index(self, base, idx, s, node):
-        raise Unsupported("subscript of a heap value", node)
+        """data[idx] on a pre-existing heap value (list / tuple / dict / str); read-only heap functions."""
+        t, i = base.t, idx.t
+        rid = V.get_rid(t)
+        is_seq = z3.And(V.is_Ref(t), z3.Or(V.kind_of(rid) == V.K_LIST, V.kind_of(rid) == V.K_TUPLE))
+        is_map = z3.And(V.is_Ref(t), V.kind_of(rid) == V.K_DICT)
+        n = V.seq_len(rid)
+        ii = V.to_int(i)
+        sn = z3.Length(V.get_s(t))
+        val = z3.If(is_map, V.map_get(rid, i),
+                    z3.If(V.is_Str(t), V.VStr(z3.SubString(V.get_s(t), self.norm_index(ii, sn), 1)),
+                          V.seq_item(rid, self.norm_index(ii, n))))
+        if self.pure:
+            return [(s, Z(val))]
+        s.assume(n >= 0)
+        out = []
+        for (s2, x) in self.need(s, z3.Or(is_seq, is_map, V.is_Str(t)), "TypeError", node, "subscripted value is a list, tuple, dict or str"):
+            if x is not None:
+                out.append((s2, x))
+                continue
+            for (s3, y) in self.need(s2, z3.Implies(z3.Not(is_map), V.is_intlike(i)), "TypeError", node, "sequence index is an int"):
+                if y is not None:
+                    out.append((s3, y))
+                    continue
+                for (s4, z) in self.need(s3, z3.Implies(is_map, V.map_has(rid, i)), "KeyError", node, "key present in the dict"):
+                    if z is not None:
+                        out.append((s4, z))
+                        continue
+                    rng = z3.If(V.is_Str(t), z3.And(ii >= -sn, ii < sn), z3.And(ii >= -n, ii < n))
+                    for (s5, w) in self.need(s4, z3.Implies(z3.Not(is_map), rng), "IndexError", node, "index within the sequence"):
+                        out.append((s5, w if w is not None else Z(val)))
+        return out
 
     def slice(self, base, lo, hi, s, node):
         def bound(v, n, default):
@@ -1124,6 +1170,20 @@ class Executor:
                 else:
                     ln = z3.If(h - l < 0, 0, h - l)
                     out.append((s2, Z(V.VStr(z3.SubString(sv, l, ln)), "str")))
+            return out
+        if isinstance(base, RefV) and isinstance(s.store[base.ref], SeqBox):
+            box = s.store[base.ref]
+            n = z3.Length(box.term)
+            l, lc = bound(lo, n, z3.IntVal(0))
+            h, hc = bound(hi, n, n)
+            conds = [c for c in (lc, hc) if c is not None]
+            out = []
+            for (s2, x) in self.need(s, z3.And(conds) if conds else T(True), "TypeError", node, "slice bounds are ints"):
+                if x is not None:
+                    out.append((s2, x))
+                else:
+                    ln = z3.If(h - l < 0, 0, h - l)
+                    out.append((s2, s2.alloc(SeqBox(z3.SubSeq(box.term, l, ln), box.elem, "list", box.elem_ann))))
             return out
         raise Unsupported("slice of %s" % type(base).__name__, node)
 
@@ -1650,7 +1710,34 @@ class Executor:
         raise Unsupported("assert", stmt)
 
     def st_Delete(self, stmt, st):
-        raise Unsupported("del", stmt)
+        if len(stmt.targets) != 1 or not isinstance(stmt.targets[0], ast.Subscript) or isinstance(stmt.targets[0].slice, ast.Slice):
+            raise Unsupported("del of other than x[i]", stmt)
+        tgt = stmt.targets[0]
+        out = []
+        for (s, vals) in self.ev_list([tgt.value, tgt.slice], st):
+            if is_exc(vals):
+                out.append((s, ("raise", vals)))
+                continue
+            base, idx = vals
+            if isinstance(base, RefV) and isinstance(s.store[base.ref], SeqBox) and isinstance(idx, Z):
+                box = s.store[base.ref]
+                n = z3.Length(box.term)
+                i = V.to_int(idx.t)
+                ok = z3.And(self.isk(idx, "intlike"), i >= -n, i < n)
+                for (s2, x) in self.need(s, ok, "IndexError", stmt, "del x[i]: index within the list"):
+                    if x is not None:
+                        out.append((s2, ("raise", x)))
+                        continue
+                    b2 = s2.store[base.ref]
+                    j = self.norm_index(i, n)
+                    b2.term = z3.Concat(z3.SubSeq(b2.term, 0, j), z3.SubSeq(b2.term, j + 1, n - j - 1))
+                    out.append((s2, None))
+                continue
+            out.extend(self.heap_delete(base, idx, s, stmt))
+        return out
+
+    def heap_delete(self, base, idx, s, stmt):
+        raise Unsupported("del on %s" % type(base).__name__, stmt)
 
     def st_For(self, stmt, st):
         raise Unsupported("for loop (engine extension not loaded)", stmt)
